@@ -14,6 +14,7 @@ from ._eval_ctx import EvalMainContext
 from ._introspect_indirect import introspect_indirect
 from .fun_args import get_arg_ctx
 from .introspect import introspect, _accepted_packages
+from ._lambda_funs import is_lambda
 from ._lru_store import LRUCacheStore, default_cache_size
 
 from .store import LocalFileStore, Store, NoOpStore, MemoryStore
@@ -220,6 +221,23 @@ def _eval(
     extra_debug = dds_extra_debug or get_option(extra_debug_option)
 
     if not _eval_ctx:
+        fun_mod_top = getattr(fun, "__module__", None)
+        if (
+            is_lambda(fun)
+            and fun_mod_top is not None
+            and not any(
+                fun_mod_top == p_ or fun_mod_top.startswith(p_ + ".")
+                for p_ in _accepted_packages
+            )
+        ):
+            # A named function of such a module is refused when the analysis looks it up again by its path;
+            # a lambda has no path and would be evaluated untracked.
+            raise DDSException(
+                f"The lambda function given to DDS belongs to the module '{fun_mod_top}', which has not been "
+                f"whitelisted for use by DDS: its code is not tracked. Use the function 'dds.accept_module' to "
+                f"whitelist {fun_mod_top} or one of its parent packages.",
+                DDSErrorCode.MODULE_NOT_FOUND,
+            )
         # Not in an evaluation context, create one and introspect
         return _eval_new_ctx(fun, path, args, kwargs, export_graph, extra_debug, stages)
     else:
